@@ -391,8 +391,10 @@ impl Ord for OctetString {
 
 impl hash::Hash for OctetString {
     fn hash<H: hash::Hasher>(&self, state: &mut H) {
-        for part in self.iter() {
-            part.hash(state)
+        // Equal strings must hash equally however they are segmented, so
+        // feed the content octet by octet.
+        for octet in self.octets() {
+            octet.hash(state)
         }
     }
 }
